@@ -70,6 +70,7 @@ def subsets():
 def shards(tier, seed):
     out = [("data", i) for i in range(len(ALPHA))]
     out.append(("extra",))
+    out.append(("trailing",))
     out.append(("wsgi_seq",))
     out += [("wsgi_threads", n, t) for n in (1, 2, 3) for t in (1, 2)]
     out += [("asgi_seq", k) for k in range(8)]
@@ -193,7 +194,7 @@ def wsgi_threads(r, n, timeouts, tier):
     r.sample({"wsgi_threads": {"events": n, "ping_timeouts": timeouts, "preemption_bound": 1 if tier == "quick" else 2}})
 
 
-def run_asgi(prefix, events):
+def run_asgi(prefix, events, gate_sends=False):
     from baize.asgi import SendEventResponse
 
     obs = {"sent": [], "exc": None}
@@ -208,8 +209,13 @@ def run_asgi(prefix, events):
             await s.env.gate("zz-disconnect")
             return {"type": "http.disconnect"}
 
+        nsend = [0]
+
         async def send(m):
             obs["sent"].append(dict(m))
+            if gate_sends:
+                nsend[0] += 1
+                await s.env.gate(f"s{nsend[0]:02d}")  # a slow client: the send completes when the explorer says so
 
         resp = SendEventResponse(gen(), ping_interval=10)
         task = s.loop.create_task(resp(SV.to_scope(SV.AReq()), receive, send))
@@ -218,6 +224,7 @@ def run_asgi(prefix, events):
         if task.done() and not task.cancelled() and task.exception():
             obs["exc"] = repr(task.exception())
         obs["pings"] = x.obs["timers_fired"]
+        obs["trace"] = x.obs["trace"]
     return Execution(x.choices, x.points, obs)
 
 
@@ -234,7 +241,7 @@ def asgi_sequences(r, k, tier="thorough"):
             r.count("traces")
             r.count("transitions", len(x.choices))
             o = x.obs
-            w = {"kind": "asgi_seq", "seq": list(seq), "schedule": list(x.choices)}
+            w = {"kind": "asgi_seq", "seq": list(seq), "schedule": list(x.choices), "gated": any(t.startswith("s0") or t.startswith("s1") for t in x.obs.get("trace", []))}
             body = b"".join(m.get("body", b"") for m in o["sent"] if m["type"] == "http.response.body")
             npings = body.count(b": ping\n\n")
             outcomes.add((npings, o["stuck"], o["exc"]))
@@ -248,6 +255,8 @@ def asgi_sequences(r, k, tier="thorough"):
                 r.violation("asgi-seq:" + p[0], w, f"ASGI SendEventResponse over {events}, schedule {x.choices} ({npings} pings): {p[1]}")
 
         dfs(lambda prefix: run_asgi(prefix, events), on_exec)
+        if 1 <= len(seq) <= 2 and seq[0] in (0, 2):
+            dfs(lambda prefix: run_asgi(prefix, events, gate_sends=True), on_exec, bound=3)
         r.count("states", len(outcomes))
     r.sample({"asgi_sequence": [MENU[i] for i in seqs[k::8][-1]], "schedules": "every interleaving of producer steps and <=2 ping timers"})
 
@@ -263,6 +272,20 @@ def run_shard(desc, tier):
                     for charset in ("utf-8", "latin-1"):
                         check_one(r, data, extra, charset)
         r.sample({"data": a0 + " \r", "extra": {"event": "ev"}, "charset": "utf-8"})
+        r.count("states", 1)
+        r.count("transitions", int(r.c["evaluations"]))
+    elif desc[0] == "trailing":
+        # whatever a trailing line terminator means (an extra empty line or not), it must mean the same for CR, LF and CRLF
+        from baize.responses import build_bytes_from_sse
+        for base in ("a", "", "a\nb", "a\r\nb", " ", ":", "\nx", "a b"):
+            got = {}
+            for term in ("\n", "\r", "\r\n"):
+                blocks = SR.parse(build_bytes_from_sse({"event": "e", "data": base + term}, "utf-8").decode("utf-8"))
+                got[term] = blocks[0]["data"] if len(blocks) == 1 else ("blocks", len(blocks))
+            r.count("evaluations")
+            r.count("distinct_nontrivial")
+            if len(set(map(repr, got.values()))) != 1:
+                r.violation("serialise:trailing-terminator-inconsistent", {"kind": "trailing", "base": base}, f"data {base!r} + LF / CR / CRLF decode to {got!r}: a trailing terminator is treated differently depending on its kind")
         r.count("states", 1)
         r.count("transitions", int(r.c["evaluations"]))
     elif desc[0] == "extra":
@@ -296,6 +319,9 @@ def replay(w):
         ev = dict(w["event"])
         data = ev.pop("data", None)
         check_one(r, data, ev, w["charset"])
+    elif w["kind"] == "trailing":
+        rr = run_shard(("trailing",), "quick")
+        return bool(rr.viol), {"violations": sorted(rr.viol)}
     elif w["kind"] == "wsgi_threads_shared":
         from . import c06
         x = c06.run_wsgi_sse(list(w["schedule"]), w["n"], None, None, False, 0, None, False, 2, True)
@@ -312,7 +338,7 @@ def replay(w):
         r.viol = {k: v for k, v in r.viol.items() if v[1]["seq"] == w["seq"]}
     else:
         events = [dict(MENU[i]) for i in w["seq"]]
-        x = run_asgi(list(w["schedule"]), events)
+        x = run_asgi(list(w["schedule"]), events, gate_sends=w.get("gated", False))
         body = b"".join(m.get("body", b"") for m in x.obs["sent"] if m["type"] == "http.response.body")
         p = judge_stream(events, body, "utf-8")
         return bool(p or x.obs["stuck"] or x.obs["exc"]), {"problem": p, "stuck": x.obs["stuck"], "exc": x.obs["exc"], "body": body}
